@@ -41,11 +41,27 @@ class SymNd(rnp.ndarray):
     def __invert__(self):
         return _map(lambda e: ~SB.lift(e), self)
 
+    @staticmethod
+    def _truth(e):
+        if isinstance(e, SB):
+            return e.t
+        if isinstance(e, (bool, rnp.bool_)):
+            return z3.BoolVal(bool(e))
+        if is_sym(e):
+            return (plain(e) != 0).t
+        return z3.BoolVal(bool(e != 0))
+
     def any(self, *a, **k):
-        return SB(z3.Or(*[SB.lift(e).t for e in self.flat])) if self.size else False
+        if not self.size:
+            return False
+        r = SB(z3.simplify(z3.Or(*[SymNd._truth(e) for e in self.flat])))
+        return bool(z3.is_true(r.t)) if (z3.is_true(r.t) or z3.is_false(r.t)) else r
 
     def all(self, *a, **k):
-        return SB(z3.And(*[SB.lift(e).t for e in self.flat])) if self.size else True
+        if not self.size:
+            return True
+        r = SB(z3.simplify(z3.And(*[SymNd._truth(e) for e in self.flat])))
+        return bool(z3.is_true(r.t)) if (z3.is_true(r.t) or z3.is_false(r.t)) else r
 
     def mean(self, axis=None, keepdims=False, **k):
         a = rnp.asarray(self)
@@ -219,7 +235,10 @@ def s_sqrt(x):
     if isinstance(x, SR):
         return x.sqrt()
     if isinstance(x, SC):
-        raise Unsupported("complex sqrt")
+        im0 = z3.simplify(toreal(tz(plain(x.im))) == 0)
+        if z3.is_true(im0):
+            return plain(x.re).sqrt()
+        return CSqrt(x)
     if ctx.cur() is not None and is_num(x) and x >= 0:
         # sqrt(2) etc. stay exact (an algebraic number), not the rounded double
         from fractions import Fraction
@@ -227,7 +246,23 @@ def s_sqrt(x):
     return rnp.sqrt(x)
 
 
+CSQRT_ARGS = []
+
+
+class CSqrt:
+    """sqrt of a complex value: only |sqrt(z)| = |z|^(1/2) is available (what np.abs(np.sqrt(z)) needs)"""
+    def __init__(self, z):
+        self.z = z
+        CSQRT_ARGS.append(z)
+
+    def __abs__(self):
+        m = abs(self.z)          # sqrt(re^2+im^2)
+        return m.sqrt()
+
+
 def s_abs(x):
+    if isinstance(x, CSqrt):
+        return abs(x)
     x = plain(x)
     if is_sym(x):
         return abs(x)
@@ -366,6 +401,10 @@ class NumpyShim:
 
     def array(self, a, dtype=None, copy=True, **k):
         dtype = _real_dtype(dtype)
+        if dtype is not None and _iscomplex(dtype) and ctx.cur() is not None and not has_sym(a):
+            # complex work arrays may later receive symbolic values (e.g. `acc += H*S`): keep them as object arrays
+            out = rnp.array(a, dtype=complex).astype(object)
+            return out.view(SymNd)
         if has_sym(a):
             if _is_int_dtype(dtype) if dtype is not None else False:
                 return astype(rnp.array(a, dtype=object), dtype)
@@ -618,6 +657,26 @@ class NumpyShim:
     def errstate(self, **k):
         return rnp.errstate(**k)
 
+    def isclose(self, a, b, rtol=1e-05, atol=1e-08, **k):
+        if has_sym(a) or has_sym(b):
+            def f(x, y):
+                x, y = plain(x), plain(y)
+                d = abs(x - y) if not isinstance(x - y, SC) else abs(SC.lift(x - y))
+                return d <= abs(y) * rtol + atol
+            if isinstance(a, rnp.ndarray) or isinstance(b, rnp.ndarray):
+                return _map(f, a, b)
+            return f(a, b)
+        return rnp.isclose(a, b, rtol=rtol, atol=atol, **k)
+
+    def count_nonzero(self, a, **k):
+        if has_sym(a):
+            return sum(ite(SymNd._truth(e), 1, 0) for e in rnp.asarray(a, dtype=object).flat)
+        return rnp.count_nonzero(a, **k)
+
+    def moveaxis(self, a, s, d):
+        r = rnp.moveaxis(a, s, d)
+        return r.view(SymNd) if isinstance(a, rnp.ndarray) and a.dtype == object else r
+
 
 def _iscomplex(dt):
     dt = _real_dtype(dt)
@@ -669,9 +728,35 @@ class _Uninit:
         return a
 
 
+def sym_det(M):
+    M = [[SC.lift(plain(v)) if isinstance(plain(v), SC) or isinstance(v, (complex, rnp.complexfloating)) else plain(v) for v in row] for row in M]
+    n = len(M)
+    if n == 1:
+        return M[0][0]
+    if n == 2:
+        return M[0][0] * M[1][1] - M[0][1] * M[1][0]
+    tot = None
+    for c in range(n):
+        minor = [row[:c] + row[c + 1:] for row in M[1:]]
+        term = M[0][c] * sym_det(minor)
+        term = term if c % 2 == 0 else -term
+        tot = term if tot is None else tot + term
+    return tot
+
+
 class _Linalg:
     def __init__(self, np_):
         self._np = np_
+
+    def det(self, a):
+        if has_sym(a):
+            a = rnp.asarray(a, dtype=object)
+            if a.ndim == 2:
+                return sym_det([list(r) for r in a])
+            if a.ndim == 3:
+                return oarr([sym_det([list(r) for r in a[k]]) for k in range(a.shape[0])])
+            raise Unsupported("det of a %d-D symbolic array" % a.ndim)
+        return rnp.linalg.det(a)
 
     def __getattr__(self, n):
         o = self._np.__dict__.get("_over", {})
